@@ -201,7 +201,18 @@ Definition unregister (r : registry) (ds : list desc) : bool * registry :=
 Definition gather_names (r : registry) : list str :=
   sort_strs (dedup_strs (flat_map (fun e => map d_fq (snd (snd e))) (r_colls r))).
 
-Inductive op := ORegister (cid : Z) (ds : list desc) | OUnregister (ds : list desc) | OGather.
+(* MustRegister(c1..cn) (registry.go:402-409, wrap.go:132-141): Register in order, stop at the first
+   error and panic with it; collectors after the rejected one are not attempted *)
+Fixpoint must_register (r : registry) (cs : list (Z * list desc)) : rres * registry :=
+  match cs with
+  | [] => (RNil, r)
+  | c :: rest =>
+      let '(e, r') := register r (fst c) (snd c) in
+      match e with RNil => must_register r' rest | _ => (e, r') end
+  end.
+
+Inductive op := ORegister (cid : Z) (ds : list desc) | OUnregister (ds : list desc) | OGather
+              | OMust (cs : list (Z * list desc)).
 Inductive obs := BReg (e : rres) | BUnreg (b : bool) | BGather (names : list str).
 
 Definition step (r : registry) (o : op) : obs * registry :=
@@ -209,6 +220,7 @@ Definition step (r : registry) (o : op) : obs * registry :=
   | ORegister cid ds => let '(e, r') := register r cid ds in (BReg e, r')
   | OUnregister ds => let '(b, r') := unregister r ds in (BUnreg b, r')
   | OGather => (BGather (gather_names r), r)
+  | OMust cs => let '(e, r') := must_register r cs in (BReg e, r')
   end.
 
 Fixpoint run_from (r : registry) (ops : list op) : list obs :=
@@ -278,6 +290,16 @@ Definition spec_unregister (s : sstate) (ds : list desc) : bool * sstate :=
   then (true, mkS (filter (fun c => negb (desc_set_eq vs (snd c))) (s_regd s)) (s_ever s) (s_unch s))
   else (false, s).
 
+(* MustRegister(c1..cn): the collectors are registered in order up to and including the first one
+   that is not accepted; its outcome is the outcome of the call; later ones are not attempted *)
+Fixpoint spec_must (s : sstate) (cs : list (Z * list desc)) : sres * sstate :=
+  match cs with
+  | [] => (SOk, s)
+  | c :: rest =>
+      let '(e, s') := spec_register s (fst c) (snd c) in
+      match e with SOk => spec_must s' rest | _ => (e, s') end
+  end.
+
 Definition spec_names (s : sstate) : list str := flat_map (fun c => map d_fq (snd c)) (s_regd s).
 
 Inductive sobs := TReg (e : sres) | TUnreg (b : bool) | TGather (names : list str).
@@ -287,6 +309,7 @@ Definition spec_step (s : sstate) (o : op) : sobs * sstate :=
   | ORegister cid ds => let '(e, s') := spec_register s cid ds in (TReg e, s')
   | OUnregister ds => let '(b, s') := spec_unregister s ds in (TUnreg b, s')
   | OGather => (TGather (spec_names s), s)
+  | OMust cs => let '(e, s') := spec_must s cs in (TReg e, s')
   end.
 Fixpoint spec_run_from (s : sstate) (ops : list op) : list sobs :=
   match ops with
@@ -308,6 +331,15 @@ Definition kind_ok (s : sstate) (ds : list desc) (e : rres) : bool :=
   | _ => true
   end.
 
+(* for MustRegister: the error kind must be justified at the collector the specification stops at *)
+Fixpoint must_kind_ok (s : sstate) (cs : list (Z * list desc)) (e : rres) : bool :=
+  match cs with
+  | [] => true
+  | c :: rest =>
+      let '(se, s') := spec_register s (fst c) (snd c) in
+      match se with SOk => must_kind_ok s' rest e | _ => kind_ok s (snd c) e end
+  end.
+
 Definition sres_eqb (a b : sres) : bool :=
   match a, b with
   | SOk, SOk => true | SRejected, SRejected => true
@@ -321,6 +353,7 @@ Definition obs_ok (s : sstate) (p : op) (o : obs) : bool :=
   | ORegister cid ds, BReg e => sres_eqb (classify e) (fst (spec_register s cid ds)) && kind_ok s ds e
   | OUnregister ds, BUnreg b => Bool.eqb b (fst (spec_unregister s ds))
   | OGather, BGather names => seteq_strs names (spec_names s)
+  | OMust cs, BReg e => sres_eqb (classify e) (fst (spec_must s cs)) && must_kind_ok s cs e
   | _, _ => false
   end.
 Fixpoint spec_check_from (s : sstate) (ops : list op) (os : list obs) : bool :=
